@@ -59,7 +59,8 @@ REQUIRED_COUNTERS = ['trials_checked', 'runs_reproduced',
                      'sampled_errors_support_checked',
                      'hash_seed_sessions_compared',
                      'batch_run_calls_on_one_object',
-                     'trial_records_reread_after_the_run']
+                     'trial_records_reread_after_the_run',
+                     'simulations_resumed_from_the_file']
 SHARD_TIMEOUT = {'quick': 900, 'thorough': 5400}
 
 DIRS = {'pureZ': (0.0, 0.0, 1.0), 'pureX': (1.0, 0.0, 0.0),
@@ -232,8 +233,13 @@ def make_cell(cell, seed):
     with contextlib.redirect_stdout(io.StringIO()):
         dec = decoder_classes()[cell['decoder']](
             code, em, cell.get('dec_rate', cell['rate']), **kw)
-    sim = DirectSimulation(code, em, dec, cell['rate'], verbose=False,
-                           rng=np.random.default_rng(seed))
+    if (seed + len(cell['cls'])) % 2:
+        sim = DirectSimulation(code, em, dec, cell['rate'], verbose=False,
+                               rng=np.random.default_rng(seed))
+    else:
+        # the documented positional order: ..., compress, verbose, rng
+        sim = DirectSimulation(code, em, dec, cell['rate'], True, False,
+                               np.random.default_rng(seed))
     return code, em, dec, sim
 
 
@@ -754,7 +760,10 @@ def run_batch(task, out):
         'error_model': {'name': 'PauliErrorModel', 'parameters': {
             'r_x': rx, 'r_y': ry, 'r_z': rz,
             'deformation_name': task['noise_def']}},
-        'decoder': {'name': task['decoder'], 'parameters': {}},
+        'decoder': {'name': task['decoder'], 'parameters': (
+            [{}, {'error_type': 'X'}]
+            if task['decoder'] == 'MatchingDecoder' else
+            [{}, {'osd_order': 0}])},
         'error_rate': [task['rate']]}}
     mech = f"batch/{task['decoder']}/{task['cls']}"
     work = os.environ.get('PV_WORK') or tempfile.gettempdir()
@@ -815,13 +824,36 @@ def run_batch(task, out):
                 out.violation(f'{mech}/n_runs', f"n_runs={g['n_runs']}",
                               desc)
                 continue
+            dk = {k: v for k, v in sim.decoder.params.items()
+                  if k in ('error_type', 'osd_order') and v is not None}
             cell = {'decoder': task['decoder'], 'cls': task['cls'],
                     'size': list(sim.code.size), 'noise': task['noise'],
-                    'noise_def': task['noise_def'], 'rate': task['rate']}
+                    'noise_def': task['noise_def'], 'rate': task['rate'],
+                    'dec_kw': dk}
+            desc = dict(desc, decoder_parameters=dk)
             calibrate(out, cell, fam.build(task['cls'],
                                            tuple(sim.code.size)),
                       desc, mech, int(g['n_fail']), int(g['n_runs']))
         out.count('batch_runs')
+        # a new session resumes from the file: every simulation gets back
+        # ITS OWN trials (the batch holds two settings of one decoder class)
+        with contextlib.redirect_stdout(io.StringIO()):
+            batch2 = read_input_dict(spec, path, verbose=False)
+            batch2.load_results()
+        for j, (old, new) in enumerate(zip(sims, batch2._simulations)):
+            out.count('simulations_resumed_from_the_file')
+            a, b = old.results, new.results
+            if int(b['n_runs']) != int(a['n_runs']) or \
+                    [bool(x) for x in b['success']] != \
+                    [bool(x) for x in a['success']] or \
+                    not np.array_equal(np.asarray(b['effective_error']),
+                                       np.asarray(a['effective_error'])):
+                out.violation(f'{mech}/resumed-with-another-simulations-'
+                              'trials', f'simulation {j} (decoder parameters '
+                              f'{old.decoder.params}) resumed from the file '
+                              'does not hold the trials it ran',
+                              {'cls': task['cls'],
+                               'size': list(old.code.size)})
     except Exception as e:
         where = panqec_frame(e)
         if where is None:
